@@ -62,6 +62,9 @@ type SpyClock struct {
 	Calls      atomic.Int64
 	WantStacks bool
 	Stacks     []string
+	// Wobble makes successive readings step back and forth by a few seconds around T (an NTP-disciplined wall clock
+	// is not monotonic): reading n is T + ((n*7919) mod 11 - 5) seconds.
+	Wobble atomic.Bool
 }
 
 func (s *SpyClock) Now() time.Time {
@@ -87,6 +90,10 @@ func (s *SpyClock) Now() time.Time {
 	}
 	s.mu.Lock()
 	defer s.mu.Unlock()
+	if s.Wobble.Load() {
+		n := s.Calls.Load()
+		return InSomeZone(s.T.Add(time.Duration((n*7919)%11-5) * time.Second))
+	}
 	return InSomeZone(s.T)
 }
 
